@@ -55,6 +55,11 @@ impl Proposal {
     /// Returns true if this proposal is sure to pass (even before expiration, if no future
     /// sequence of possible votes could cause it to fail).
     pub fn is_passed(&self, block: &BlockInfo) -> bool {
+        // without any Yes weight nothing passes, even if everybody else abstained
+        // (which brings the weight the percentage is applied to down to zero)
+        if self.votes.yes == 0 {
+            return false;
+        }
         match self.threshold {
             Threshold::AbsoluteCount {
                 weight: weight_needed,
